@@ -62,7 +62,7 @@ def build(variant='default'):
     env.pop('RUSTUP_TOOLCHAIN', None)
     env.pop('RUSTFLAGS', None)
     env.update(VARIANTS[variant])
-    p = subprocess.run(['cargo', 'build', '--release', '--offline', '-q'], cwd=d, env=env, capture_output=True, text=True)
+    p = subprocess.run(['cargo', 'build', '--release', '--offline', '-q'], cwd=d, env=env, capture_output=True, text=True, errors="replace")
     exe = os.path.join(d, 'target', 'release', 'witness')
     if p.returncode != 0 or not os.path.exists(exe):
         return d, None, (p.stdout + p.stderr)[-3000:]
@@ -114,7 +114,7 @@ def _search_one(variant, families, deep=0):
                 dpath = os.path.join(d, 'dict.txt')
                 if not os.path.exists(dpath):
                     open(dpath, 'w').write('\n'.join(x.hex() for x in literals(REPO)) + '\n')
-                p = subprocess.run([exe, 'search', fam], capture_output=True, text=True, timeout=(900 if not deep else 3000), env=dict(os.environ, WITNESS_DEEP=str(deep), WITNESS_DICT=dpath))
+                p = subprocess.run([exe, 'search', fam], capture_output=True, text=True, errors="replace", timeout=(900 if not deep else 3000), env=dict(os.environ, WITNESS_DEEP=str(deep), WITNESS_DICT=dpath))
             except subprocess.TimeoutExpired:
                 out['error'] = 'witness search timed out (%s)' % variant
                 continue
@@ -179,7 +179,7 @@ def timing():
         if exe is None:
             out['error'] = 'witness build failed:\n' + err
             return out
-        p = subprocess.run([exe, 'timing'], capture_output=True, text=True, timeout=600)
+        p = subprocess.run([exe, 'timing'], capture_output=True, text=True, errors="replace", timeout=600)
         flagged = set()
         for l in p.stdout.split('\n'):
             if l.startswith('{'):
@@ -204,7 +204,7 @@ def replay(family, cfg, cap, hexs, variant='default', history=None):
         if exe is None:
             return 2, 'witness build failed:\n' + err
         extra = [history[0] or '', str(history[1]), str(history[2])] if history else []
-        p = subprocess.run([exe, 'replay', family, str(cfg), str(cap), hexs] + extra, capture_output=True, text=True, timeout=120)
+        p = subprocess.run([exe, 'replay', family, str(cfg), str(cap), hexs] + extra, capture_output=True, text=True, errors="replace", timeout=120)
         return p.returncode, p.stdout + p.stderr
     finally:
         shutil.rmtree(d, ignore_errors=True)
@@ -254,9 +254,9 @@ def relevant(prop, f):
     if prop == 'C09':
         return fam == 'chunk'
     if prop == 'C06':
-        return fam == 'request' and (stage == 'startline' or any(x in parts for x in ('method', 'path', 'version'))) and parts != ['error-kind']
+        return fam == 'request' and (stage == 'startline' or any(x in parts for x in ('method', 'path', 'version', 'invalid-utf8'))) and parts != ['error-kind']
     if prop == 'C07':
-        return fam == 'response' and (stage == 'startline' or any(x in parts for x in ('version', 'code', 'reason'))) and parts != ['error-kind']
+        return fam == 'response' and (stage == 'startline' or any(x in parts for x in ('version', 'code', 'reason', 'invalid-utf8'))) and parts != ['error-kind']
     if prop == 'C08':
         return stage == 'headers' and hdr_opts == 0 and parts != ['error-kind']
     if prop == 'C14':
@@ -267,7 +267,7 @@ def relevant(prop, f):
         return f.get('gen') in ('lane-sweep', 'long-sweep', 'stride-pairs') or accepts_forbidden
     if prop == 'C05':
         # a byte the grammar forbids was accepted (or not yet rejected), or a reported field differs
-        return accepts_forbidden or f.get('gen') in ('lane-sweep', 'long-sweep', 'stride-pairs') or any(x in parts for x in ('method', 'path', 'reason', 'headers', 'code', 'version'))
+        return accepts_forbidden or f.get('gen') in ('lane-sweep', 'long-sweep', 'stride-pairs') or any(x in parts for x in ('method', 'path', 'reason', 'headers', 'code', 'version', 'invalid-utf8'))
     if prop == 'C17':
         return any(x in parts for x in ('headers-len-restore', 'untouched-slots')) or 'TooManyHeaders' in f.get('real', '') + f.get('expected', '') or f.get('gen') == 'capacity'
     if prop == 'C03':
